@@ -601,7 +601,7 @@ func TestVerifSnapctl(t *testing.T) {
 	}
 	uids := map[string][]uint32{"root": {0}, "user": {1000}}
 	if os.Getenv("VERIF_TIER") == "thorough" {
-		uids["user"] = []uint32{1000, 1, 4294967295}
+		uids["user"] = []uint32{1000, 4294967295}
 	}
 
 	bySig := map[string][]verifSnapctlRow{}
